@@ -51,6 +51,16 @@ reg("C11", "rules_c11", "check_C11", "proof",
     "R5: in each configuration the crate's fma is a single call provider(x,y,z) to f64::mul_add (std) / libm::fma (no_std, MinGW branch) and is the only place reaching a fused multiply-add. R25: every other function body has the identical op-level decision tree (fallback: identical canonicalised MIR) and every constant the identical bits in both configurations; items in one configuration only are outside the numeric API. Hence the configurations differ only in which correctly rounded FMA they call.",
     COMMON_ASSUME + ["both trusted FMAs are correctly rounded (a property of core/libm, not of this repository)", "the MinGW target itself cannot be compiled here; its fma branch is configuration B"])
 
+reg("C12", "rules_consts", "check_C12", "proof",
+    "obligations = the 19 named constants, 19 FloatConst accessors, 6 associated constants, 2 angle factors (finite set, checked completely)",
+    "R27: each constant's const-evaluated words equal dd(c) = (RN(c), RN(c-RN(c))) computed with mpmath at 600 and 900 bits (must agree) and exact rational rounding; R28: MAX/MIN are (±f64::MAX, ±largest b with RN(hi+b)=hi) computed in exact rationals, MIN_POSITIVE, NAN, ±INFINITY as stated; R29: to_degrees/to_radians are self * dd(180/pi) / dd(pi/180) through the Alg. 12 product (C04).",
+    COMMON_ASSUME + ["mpmath's pi/e/log/sqrt/atan at 600 and 900 bits agree"])
+
+reg("C01", "rules_c01", "check_C01", "other",
+    "instances = every MIR Aggregate(TwoFloat) site and every TwoFloat constant of the crate (non-test), every function returning TwoFloat; non-trivial = not the {x, 0.0} form",
+    "Inductive constructor discipline. R1 (N/S): every aggregate site is one of the closed set k1 EFT primitive (by conformance), k2 zero low word, k3 constant pair valid in exact rationals / explicit non-finite marker, k4 word-wise negation, k5 dominated by no_overlap(hi,lo)==true, k6 hi rounded under modf(lo).0==0, k7 both words scaled alike; every TwoFloat constant and table entry is valid (exact rationals). R1b: no in-place word stores. R2: functions return only parameters/constants/classified aggregates/crate calls. R3: fields are not public, unsafe is forbidden. This decides WHERE validity is created and that there is nowhere else; it does not re-prove Fast2Sum's ordering precondition at each call site (numeric, not decided).",
+    COMMON_ASSUME + ["Fast2Sum ordering preconditions at call sites and subnormal low words in k6/k7 are not decided"])
+
 def main(argv):
     if not argv:
         print('usage: check <ID>|all [--tier quick|thorough]'); return 2
